@@ -6,6 +6,8 @@ import sys
 import time
 
 VERIF = os.path.dirname(os.path.dirname(os.path.dirname(os.path.abspath(__file__))))
+# development aid only: side runs (variants analysed in another tree) must not overwrite the evidence of the real checks
+EVDIR = os.environ.get("VERIF_EVIDENCE_DIR") or os.path.join(VERIF, "evidence")
 KNOWN_PATH = os.path.join(VERIF, "known_findings.json")
 
 
@@ -60,7 +62,7 @@ class Check:
 
     # ------------------------------------------------------------------ result
     def finish(self, facts_info=None):
-        os.makedirs(os.path.join(VERIF, "evidence"), exist_ok=True)
+        os.makedirs(EVDIR, exist_ok=True)
         failed = [o for o in self.obligations if not o["ok"]]
         violations = []
         known_hits = []
@@ -74,7 +76,7 @@ class Check:
             print("KNOWN-FINDING: property=%s %s -- %s [%s]" % (self.prop, o["key"], e.get("what", ""), o["site"]))
         replay_paths = []
         if violations:
-            rdir = os.path.join(VERIF, "evidence", "replay")
+            rdir = os.path.join(EVDIR, "replay")
             os.makedirs(rdir, exist_ok=True)
             for o in violations:
                 h = hashlib.sha256(o["key"].encode()).hexdigest()[:10]
@@ -127,7 +129,7 @@ class Check:
             "violations": len(violations),
         }
         ev["coverage"].update(self.extra)
-        with open(os.path.join(VERIF, "evidence", "%s.json" % self.prop), "w") as fh:
+        with open(os.path.join(EVDIR, "%s.json" % self.prop), "w") as fh:
             json.dump(ev, fh, indent=1)
         print("%s: %d obligations, %d discharged, %d known findings, %d violations (%.1fs)"
               % (self.prop, n_ob, n_ok, len(known_hits), len(violations), time.time() - self.t0))
